@@ -98,7 +98,8 @@ pub struct SendCtx<'a> {
 pub type Filter = Box<dyn FnMut(&SendCtx<'_>, &mut Prng) -> Option<Fate> + Send>;
 
 /// Identity of a datagram for the fair-lossy budget: two datagrams with the same identity are
-/// "the same packet sent again".
+/// "the same packet sent again". Packets that occupy a sequence number (SYN, DATA, FIN) are
+/// identified by it; pure acknowledgements by what they acknowledge and advertise.
 #[derive(Clone, Debug, PartialEq, Eq, PartialOrd, Ord, Hash)]
 pub struct PktIdentity {
     pub src: SocketAddr,
@@ -109,7 +110,25 @@ pub struct PktIdentity {
     pub ack: u16,
     pub sack: Vec<u8>,
     pub wnd: u32,
-    pub plen: usize,
+}
+
+impl PktIdentity {
+    pub fn of(src: SocketAddr, dst: SocketAddr, p: &Pkt) -> PktIdentity {
+        let occupies_seq = matches!(p.ty, wire::ST_DATA | wire::ST_FIN | wire::ST_SYN);
+        PktIdentity {
+            src,
+            dst,
+            ty: p.ty,
+            conn_id: p.conn_id,
+            seq: if occupies_seq { p.seq } else { 0 },
+            // a pure acknowledgement is "the same packet again" when it acknowledges the same
+            // sequence number: if window or SACK bits counted, every retransmission could be
+            // answered by a "new" ACK and a fair network could still starve one segment for ever
+            ack: if occupies_seq { 0 } else { p.ack },
+            sack: Vec::new(),
+            wnd: 0,
+        }
+    }
 }
 
 pub struct FaultPlan {
@@ -132,6 +151,10 @@ pub struct FaultPlan {
     dropped_identities: BTreeMap<PktIdentity, u32>,
     /// Never apply random loss to SYN packets (SYNs are not retransmitted by design).
     pub protect_syn: bool,
+    /// No random loss between two addresses until the initiator's first non-SYN packet has been
+    /// delivered (the accepting side gives up after 5 x 200 ms by design).
+    pub protect_handshake: bool,
+    handshake_seen: BTreeMap<(SocketAddr, SocketAddr), bool>,
     /// Apply random loss / duplication / reordering only to datagrams from real sockets.
     pub spare_scripted: bool,
     /// Silent size black hole: datagrams whose IP packet would exceed this are dropped.
@@ -170,6 +193,8 @@ impl FaultPlan {
             budget_per_identity: None,
             dropped_identities: BTreeMap::new(),
             protect_syn: true,
+            protect_handshake: false,
+            handshake_seen: BTreeMap::new(),
             spare_scripted: true,
             path_mtu: None,
             path_mtu_by_src: BTreeMap::new(),
@@ -274,6 +299,21 @@ impl FaultPlan {
         let random_faults_apply = !(ctx.scripted && self.spare_scripted);
         if random_faults_apply {
             let is_syn = ctx.pkt.map(|p| p.ty == wire::ST_SYN).unwrap_or(false);
+            let mut in_handshake = false;
+            if self.protect_handshake {
+                if is_syn {
+                    self.handshake_seen.entry((ctx.src, ctx.dst)).or_insert(false);
+                    in_handshake = true;
+                } else if let Some(done) = self.handshake_seen.get_mut(&(ctx.src, ctx.dst)) {
+                    // initiator -> acceptor, not a SYN: this one still goes through, then it is over
+                    if !*done {
+                        in_handshake = true;
+                        *done = true;
+                    }
+                } else if let Some(done) = self.handshake_seen.get(&(ctx.dst, ctx.src)) {
+                    in_handshake = !*done;
+                }
+            }
             let mut lose = false;
             if let Some((p_in, p_out)) = self.burst {
                 if self.in_burst {
@@ -288,20 +328,10 @@ impl FaultPlan {
             if self.loss > 0.0 && self.rng.chance(self.loss) {
                 lose = true;
             }
-            if lose && !(is_syn && self.protect_syn) {
+            if lose && !(is_syn && self.protect_syn) && !in_handshake {
                 let allowed = match (self.budget_per_identity, ctx.pkt) {
                     (Some(budget), Some(p)) => {
-                        let ident = PktIdentity {
-                            src: ctx.src,
-                            dst: ctx.dst,
-                            ty: p.ty,
-                            conn_id: p.conn_id,
-                            seq: p.seq,
-                            ack: p.ack,
-                            sack: p.sack().map(|s| s.to_vec()).unwrap_or_default(),
-                            wnd: p.wnd,
-                            plen: p.payload.len(),
-                        };
+                        let ident = PktIdentity::of(ctx.src, ctx.dst, p);
                         let c = self.dropped_identities.entry(ident).or_insert(0);
                         if *c < budget {
                             *c += 1;
@@ -881,6 +911,7 @@ where
 {
     install_panic_hook();
     let _ = take_panics();
+    let keep_snapshots = keep_snapshots || std::env::var_os("UVH_SNAPSHOTS").is_some();
     let mut seed_bytes = [0u8; 32];
     {
         let mut p = Prng::new(seed ^ 0x7075_7270);
